@@ -38,7 +38,7 @@ FLOORS = {"quick": {"sink_acks_checked": 30000, "sink_sequences": 5000, "sender_
                        "faults_applied": 80000, "data_drops_applied": 30000, "ack_drops_applied": 30000, "delays_applied": 40000,
                        "timeouts_seen": 30000, "fast_retransmits_seen": 2000, "lossfree_runs": 60,
                        "exhaustive_spaces": 40, "cc_TCPCubic": 10000, "cc_TCPReno": 10000}}
-KEYS = tuple(FLOORS["quick"].keys()) + ("unusual_config_runs", "sink_long_hole_sequences", "random_pattern_runs", "dup_transmissions", "drained_after_completion", "slow_path_runs")
+KEYS = tuple(FLOORS["quick"].keys()) + ("unusual_config_runs", "sink_long_hole_sequences", "random_pattern_runs", "dup_transmissions", "drained_after_completion", "slow_path_runs", "large_flow_id_or_rational_rtt_runs")
 # floors for the situations added with the later rounds of seeded changes (evidence that they were really exercised)
 FLOORS["quick"].update({'slow_path_runs': 16})
 FLOORS["thorough"].update({'slow_path_runs': 100})
@@ -167,12 +167,16 @@ def sender_case(case, stats, bad):
     net = vnet.Net()
     env = net.env
     size = case["n"] * MSS
-    flow = Flow(flow_id=1, src="s", dst="d", start_time=0, finish_time=float("inf"), size=size)
+    fid = case.get("flow_id", 1)
+    if fid > 256:
+        fid = int(str(fid))            # (not the interned small int: equal, but a different object than any literal)
+    flow = Flow(flow_id=fid, src="s", dst="d", start_time=0, finish_time=float("inf"), size=size)
     if case["cc"] == "TCPReno":
         cc = TCPReno(ssthresh=case["ssthresh0"]) if "ssthresh0" in case else TCPReno()
     else:
         cc = TCPCubic()
-    sender = TCPPacketGenerator(env, flow=flow, cc=cc, rtt_estimate=case["rtt0"])
+    from vlib import kern as _k
+    sender = TCPPacketGenerator(env, flow=flow, cc=cc, rtt_estimate=_k.num(case["rtt0"]))      # ("p/q" = an exact Fraction)
     sink = TCPSink(env, rec_waits=False, rec_arrivals=False)
     dtap = DropTap(net, "data", case["data_drops"], case.get("data_delays"))
     atap = DropTap(net, "ack", case["ack_drops"], case.get("ack_delays"))
@@ -330,6 +334,16 @@ def run_shard(ctx):
                 "rtt0": rng.choice([1.0, 0.01]), "data_drops": [], "ack_drops": []}
         sender_case(case, stats, mk_bad(case))
         stats["unusual_config_runs"] += 1
+        ctx.case_done(case, True)
+    # flow ids beyond the small-int cache, initial RTT estimates of another real number type
+    for j in range(6 if ctx.tier == "quick" else 60):
+        n = rng.choice([4, 8, 12])
+        case = {"kind": "sender", "n": n, "cc": ["TCPReno", "TCPCubic"][j % 2], "delay": rng.choice([0.05, 0.1]),
+                "rtt0": rng.choice(["1/2", "3/2", 1.0, 1]), "flow_id": rng.choice([300, 4242, 70001, 7]),
+                "data_drops": sorted(rng.sample(range(n + 4), rng.randint(0, 2))), "ack_drops": sorted(rng.sample(range(n + 4), rng.randint(0, 1)))}
+        sender_case(case, stats, mk_bad(case))
+        stats["unusual_config_runs"] += 1
+        stats["large_flow_id_or_rational_rtt_runs"] += 1
         ctx.case_done(case, True)
     # very slow loss-free paths: round-trip times of minutes, still below the sender's RTO (a large initial estimate)
     for j in range(4 if ctx.tier == "quick" else 24):
